@@ -88,15 +88,18 @@ fn seqs<C: CI + MaskableMut + ComplementMut>(ctx: &mut Ctx, mask_code: fn(u8) ->
     let noff = n_offsets(a.bits);
     ctx.group(&format!("{name}/sequences"), |ctx| {
         let lens: Vec<usize> = if ctx.lite { vec![0, 1, pw + 1 + ctx.shard % 2] } else { (0..=3 * pw + 2).chain(long_lengths(a.bits)).collect() };
-        for n in lens {
+        // (length, Some(pad) = exact-fit operands: allocation without spare words, nothing after the window)
+        let plan = exact_plan(ctx, a.bits, lens);
+        for (n, exact_pad) in plan {
             for rep in 0..ctx.n(3, 30, 1) {
-                if ctx.over() {
+                if ctx.over() || (exact_pad.is_some() && rep > 0) {
                     break;
                 }
+                let _fit = exact_pad.map(|_| exact_fit_mode());
                 let x: Vec<u8> = if rep == 0 { cover_codes(&mut ctx.rng, a, n) } else { rand_codes(&mut ctx.rng, a, n) };
                 let x: Vec<u8> = x.into_iter().map(subst).collect();
                 // built by parse, and by to_owned() of an offset slice
-                let pad = (n * 3 + rep * 7 + 1) % noff;
+                let pad = exact_pad.unwrap_or((n * 3 + rep * 7 + 1) % noff);
                 let p = Padded::<C>::new(&mut ctx.rng, pad, &x, 2);
                 let subjects: [(&str, Seq<C>); 2] = [("parsed", mk::<C>(&x)), ("offset-to_owned", p.slice().to_owned())];
                 let wm: Vec<u8> = x.iter().map(|c| mask_code(*c)).collect();
@@ -128,7 +131,7 @@ fn seqs<C: CI + MaskableMut + ComplementMut>(ctx: &mut Ctx, mask_code: fn(u8) ->
                         Err(pm) => check!(ctx, false, format!("to_mask|{name}|panics"), "{what}: panicked {pm}"),
                     }
                     let strad = straddles(a.bits, 0, n);
-                    cell!(ctx, "{name}/seq/{prov}/{}/straddle={strad}", len_class(a.bits, n));
+                    cell!(ctx, "{name}/seq/{prov}/{}/straddle={strad}{}", len_class(a.bits, n), if exact_pad.is_some() { "/exact-fit" } else { "" });
                     ctx.nontrivial(fp(&[name.as_bytes(), prov.as_bytes(), &x]));
                 }
                 if rep == 0 && n % 16 == 13 {
@@ -141,6 +144,26 @@ fn seqs<C: CI + MaskableMut + ComplementMut>(ctx: &mut Ctx, mask_code: fn(u8) ->
 
 fn main() {
     run_main("C20", |ctx| {
+        // before anything else in the process: the first use of every masked-codec operation, from three threads at once
+        ctx.first_use_race(3, |t| {
+            let mi: Seq<MIupac> = ["ACgtRyKmNn-.", "nnACGTacgtSW", "BDHVbdhv"][t % 3].try_into().unwrap();
+            let md: Seq<MDna> = ["ACGTacgtNn-", "nnACGTacgt", "-ttGGccAA"][t % 3].try_into().unwrap();
+            fn sym<X: Codec + MaskableMut + ComplementMut>(s: X) -> (u8, u8, u8) {
+                let (mut m, mut u, mut c) = (s, s, s);
+                m.mask();
+                u.unmask();
+                c.comp();
+                (m.to_bits(), u.to_bits(), c.to_bits())
+            }
+            let syms: Vec<(u8, u8, u8)> = MIupac::items().map(sym).collect();
+            let syms2: Vec<(u8, u8, u8)> = MDna::items().map(sym).collect();
+            (
+                (mi.to_mask().to_string(), mi.to_unmask().to_string(), mi.to_comp().to_string(), mi.to_revcomp().to_string(), mi.to_rev().to_string()),
+                (md.to_mask().to_string(), md.to_unmask().to_string(), md.to_comp().to_string(), md.to_revcomp().to_string(), md.to_rev().to_string()),
+                syms,
+                syms2,
+            )
+        });
         miupac_symbols(ctx);
         mdna_symbols(ctx);
         seqs::<MIupac>(ctx, |c| c | 4, |c| c & !4, |c| c);
